@@ -60,7 +60,9 @@ PROPS = {
     "C19": dict(lanes=L(["rel", "dbg"])),
     "C20": dict(lanes=L(["rel", "dbg"])),
     "C21": dict(lanes=L(["rel", "dbg"])),
+    "C22": dict(lanes=L(["rel", "dbg"])),
     "C27": dict(lanes=L(["rel", "dbg"])),
+    "C31": dict(lanes=L(["rel", "dbg"])),
     "C13": dict(lanes=L(["rel", "dbg"])),
     "C32": dict(lanes=L(["rel", "dbg"])),
 }
